@@ -81,6 +81,34 @@ def check_swap(facts, path):
 def loop_direction(ft, idx_term):
     """'desc' / 'asc' / None for an index produced by iterating a Range (optionally reversed)"""
     t = idx_term
+    # hand-written counters: `let mut i = end; while i > 0 { i -= 1; use(i) }` walks end-1 .. 0,
+    # `let mut i = 0; while i < end { use(i); i += 1 }` walks 0 .. end-1
+    cnt, off = t, 0
+    if t[0] == "bin" and t[1] in ("Sub", "Add") and const_int(t[3]) is not None:
+        cnt, off = t[2], const_int(t[3]) * (1 if t[1] == "Add" else -1)
+    if cnt[0] == "phi" and cnt[1] == ft.path:
+        loops = ft.cfg.loops()
+        body = loops.get(cnt[2])
+        if body is not None:
+            ops = ft.phi_operands(cnt)
+            inits = [v for p, v in ops.items() if p not in body]
+            backs = [v for p, v in ops.items() if p in body]
+
+            def step(v):
+                if v[0] == "bin" and v[1] in ("Add", "Sub") and strip_site(v[2]) == strip_site(cnt) and const_int(v[3]) is not None:
+                    return const_int(v[3]) * (1 if v[1] == "Add" else -1)
+                return None
+            steps = {step(v) for v in backs}
+            guard = None
+            tm = ft.blocks[cnt[2]]["term"]
+            if tm["k"] == "switch":
+                guard = ft.switch_term(cnt[2])
+            if len(inits) == 1 and steps == {-1} and off == -1 and guard is not None and guard[0] == "bin" and guard[1] == "Gt" \
+                    and strip_site(guard[2]) == strip_site(cnt) and const_int(guard[3]) == 0:
+                return "desc", inits[0]
+            if len(inits) == 1 and steps == {1} and off == 0 and const_int(inits[0]) == 0 and guard is not None and guard[0] == "bin" and guard[1] == "Lt" \
+                    and strip_site(guard[2]) == strip_site(cnt):
+                return "asc", guard[3]
     if t[0] != "payload" or t[2][0] != "call":
         return None, "index is not produced by an iterator"
     nxt = t[2]
